@@ -12,7 +12,7 @@
    clamp lets a NaN through); variation operators preserve the encoded domain (C06's validity
    theorems) enters the skeleton invariant as the hypothesis [Op_dom]. *)
 From Coq Require Import ZArith Bool List Sorting.Permutation.
-From PV Require Import Model.Evaluate Model.AlgSkeleton Proofs.EvaluateProofs Proofs.AlgSkeletonProofs.
+From PV Require Import Model.Evaluate Model.AlgSkeleton Model.AlgSteps Proofs.EvaluateProofs Proofs.AlgSkeletonProofs Proofs.AlgStepsProofs.
 Open Scope Z_scope.
 
 (* the boolean evaluated on every logged call decides the domain predicate *)
@@ -140,3 +140,585 @@ Section C07generic.
     Forall (EncOK Val Num Ty types dom_enc) (b_before b).
   Proof. exact (submitted_in_domain Val Num Ty decode encode F C nabs nadd nzero niszero types dom_enc dom_dec Op decode_dom encode_dom Op_dom). Qed.
 End C07generic.
+
+(* ------------------------------------------------------------------------- *)
+(* The step functions of the algorithms (Model/AlgSteps.v) keep the C07 invariant: if everything exposed is in
+   the encoded domain, then every solution handed to evaluate_all in the step is, every argument vector the user
+   function receives is in the domain, and everything exposed afterwards is again in the encoded domain.
+   Hypotheses: the contracts of the abstract components (variators/mutators preserve the domain = C06;
+   move = c07_pso_update_positions_in_domain and sample = c07_cmaes_sample_in_domain under the non-NaN
+   hypothesis; generator = c07_rand_*_in_domain; decode/encode = c07_decode_in_domain / c07_encode_in_domain). *)
+
+(* GeneticAlgorithm.initialize *)
+Theorem c07_ga_initialize_step_in_domain :
+    forall (Val Num Ty : Type) (decode encode : Ty -> Val -> Val) (F : list Val -> list Num * list Num)
+         (C : list (Num -> Num)) (nabs : Num -> Num) (nadd : Num -> Num -> Num) (nzero : Num) 
+         (niszero : Num -> bool) (types : list Ty) (ev : list (sol Val Num) -> list (jobres Val Num)) 
+         (T : Type) (vary : T -> list (sol Val Num) -> list (sol Val Num))
+         (mutate move : T -> sol Val Num -> sol Val Num) (sample : T -> sol Val Num) (Gen : sol Val Num -> Prop)
+         (sortf : list (sol Val Num) -> list (sol Val Num)),
+       ev_spec Val Num Ty decode encode F C nabs nadd nzero niszero types ev ->
+       (forall l : list (sol Val Num), incl (sortf l) l) ->
+       forall dom_enc dom_dec : Ty -> Val -> Prop,
+       (forall (t : Ty) (v : Val), In t types -> dom_enc t v -> dom_dec t (decode t v)) ->
+       (forall (t : Ty) (v : Val), In t types -> dom_dec t v -> dom_enc t (encode t v)) ->
+       (forall (t : T) (ps : list (sol Val Num)) (c : sol Val Num),
+        Forall (EncOK Val Num Ty types dom_enc) ps -> In c (vary t ps) -> EncOK Val Num Ty types dom_enc c) ->
+       (forall (t : T) (p : sol Val Num),
+        EncOK Val Num Ty types dom_enc p -> EncOK Val Num Ty types dom_enc (mutate t p)) ->
+       (forall (t : T) (p : sol Val Num),
+        EncOK Val Num Ty types dom_enc p -> EncOK Val Num Ty types dom_enc (move t p)) ->
+       (forall t : T, EncOK Val Num Ty types dom_enc (sample t)) ->
+       (forall s : sol Val Num, Gen s -> EncOK Val Num Ty types dom_enc s) ->
+       forall injected gen : list (sol Val Num),
+       generated Val Num Gen injected gen ->
+       Forall (EncOK Val Num Ty types dom_enc) injected ->
+       Forall (fun b : batch Val Num => Forall (EncOK Val Num Ty types dom_enc) (b_before b))
+         (snd (ga_initialize Val Num ev sortf gen)) /\
+       Forall (InDomain Val Ty types dom_dec)
+         (flat_map (calls_of Val Num Ty decode types) (snd (ga_initialize Val Num ev sortf gen))) /\
+       Forall (EncOK Val Num Ty types dom_enc) (ga_exposed Val Num (fst (ga_initialize Val Num ev sortf gen))).
+Proof. exact ga_initialize_step_in_domain. Qed.
+
+(* GeneticAlgorithm.iterate *)
+Theorem c07_ga_step_in_domain :
+    forall (Val Num Ty : Type) (decode encode : Ty -> Val -> Val) (F : list Val -> list Num * list Num)
+         (C : list (Num -> Num)) (nabs : Num -> Num) (nadd : Num -> Num -> Num) (nzero : Num) 
+         (niszero : Num -> bool) (types : list Ty) (ev : list (sol Val Num) -> list (jobres Val Num)) 
+         (T : Type) (vary : T -> list (sol Val Num) -> list (sol Val Num))
+         (mutate move : T -> sol Val Num -> sol Val Num) (sample : T -> sol Val Num) (Gen : sol Val Num -> Prop)
+         (survive : list (sol Val Num) -> list (sol Val Num)),
+       ev_spec Val Num Ty decode encode F C nabs nadd nzero niszero types ev ->
+       (forall l : list (sol Val Num), incl (survive l) l) ->
+       forall dom_enc dom_dec : Ty -> Val -> Prop,
+       (forall (t : Ty) (v : Val), In t types -> dom_enc t v -> dom_dec t (decode t v)) ->
+       (forall (t : Ty) (v : Val), In t types -> dom_dec t v -> dom_enc t (encode t v)) ->
+       (forall (t : T) (ps : list (sol Val Num)) (c : sol Val Num),
+        Forall (EncOK Val Num Ty types dom_enc) ps -> In c (vary t ps) -> EncOK Val Num Ty types dom_enc c) ->
+       (forall (t : T) (p : sol Val Num),
+        EncOK Val Num Ty types dom_enc p -> EncOK Val Num Ty types dom_enc (mutate t p)) ->
+       (forall (t : T) (p : sol Val Num),
+        EncOK Val Num Ty types dom_enc p -> EncOK Val Num Ty types dom_enc (move t p)) ->
+       (forall t : T, EncOK Val Num Ty types dom_enc (sample t)) ->
+       (forall s : sol Val Num, Gen s -> EncOK Val Num Ty types dom_enc s) ->
+       forall (tape : list (list nat * T)) (st : ga_st Val Num),
+       Forall (EncOK Val Num Ty types dom_enc) (ga_exposed Val Num st) ->
+       Forall (fun b : batch Val Num => Forall (EncOK Val Num Ty types dom_enc) (b_before b))
+         (snd (ga_iterate Val Num ev T vary survive tape st)) /\
+       Forall (InDomain Val Ty types dom_dec)
+         (flat_map (calls_of Val Num Ty decode types) (snd (ga_iterate Val Num ev T vary survive tape st))) /\
+       Forall (EncOK Val Num Ty types dom_enc)
+         (ga_exposed Val Num (fst (ga_iterate Val Num ev T vary survive tape st))).
+Proof. exact ga_step_in_domain. Qed.
+
+(* EvolutionaryStrategy.iterate *)
+Theorem c07_es_step_in_domain :
+    forall (Val Num Ty : Type) (decode encode : Ty -> Val -> Val) (F : list Val -> list Num * list Num)
+         (C : list (Num -> Num)) (nabs : Num -> Num) (nadd : Num -> Num -> Num) (nzero : Num) 
+         (niszero : Num -> bool) (types : list Ty) (ev : list (sol Val Num) -> list (jobres Val Num)) 
+         (T : Type) (vary : T -> list (sol Val Num) -> list (sol Val Num))
+         (mutate move : T -> sol Val Num -> sol Val Num) (sample : T -> sol Val Num) (Gen : sol Val Num -> Prop)
+         (survive : list (sol Val Num) -> list (sol Val Num)),
+       ev_spec Val Num Ty decode encode F C nabs nadd nzero niszero types ev ->
+       (forall l : list (sol Val Num), incl (survive l) l) ->
+       forall dom_enc dom_dec : Ty -> Val -> Prop,
+       (forall (t : Ty) (v : Val), In t types -> dom_enc t v -> dom_dec t (decode t v)) ->
+       (forall (t : Ty) (v : Val), In t types -> dom_dec t v -> dom_enc t (encode t v)) ->
+       (forall (t : T) (ps : list (sol Val Num)) (c : sol Val Num),
+        Forall (EncOK Val Num Ty types dom_enc) ps -> In c (vary t ps) -> EncOK Val Num Ty types dom_enc c) ->
+       (forall (t : T) (p : sol Val Num),
+        EncOK Val Num Ty types dom_enc p -> EncOK Val Num Ty types dom_enc (mutate t p)) ->
+       (forall (t : T) (p : sol Val Num),
+        EncOK Val Num Ty types dom_enc p -> EncOK Val Num Ty types dom_enc (move t p)) ->
+       (forall t : T, EncOK Val Num Ty types dom_enc (sample t)) ->
+       (forall s : sol Val Num, Gen s -> EncOK Val Num Ty types dom_enc s) ->
+       forall (ts : list T) (pop : list (sol Val Num)),
+       Forall (EncOK Val Num Ty types dom_enc) pop ->
+       Forall (fun b : batch Val Num => Forall (EncOK Val Num Ty types dom_enc) (b_before b))
+         (snd (es_iterate Val Num ev T vary survive ts pop)) /\
+       Forall (InDomain Val Ty types dom_dec)
+         (flat_map (calls_of Val Num Ty decode types) (snd (es_iterate Val Num ev T vary survive ts pop))) /\
+       Forall (EncOK Val Num Ty types dom_enc) (fst (es_iterate Val Num ev T vary survive ts pop)).
+Proof. exact es_step_in_domain. Qed.
+
+(* NSGAII.initialize (archive optional; also EpsMOEA / PAES / PESA2 / CMAES-style archive += population) *)
+Theorem c07_nsga2_initialize_step_in_domain :
+    forall (Val Num Ty : Type) (decode encode : Ty -> Val -> Val) (F : list Val -> list Num * list Num)
+         (C : list (Num -> Num)) (nabs : Num -> Num) (nadd : Num -> Num -> Num) (nzero : Num) 
+         (niszero : Num -> bool) (types : list Ty) (ev : list (sol Val Num) -> list (jobres Val Num)) 
+         (T : Type) (vary : T -> list (sol Val Num) -> list (sol Val Num))
+         (mutate move : T -> sol Val Num -> sol Val Num) (sample : T -> sol Val Num) (Gen : sol Val Num -> Prop)
+         (arch_add : list (sol Val Num) -> sol Val Num -> list (sol Val Num)),
+       ev_spec Val Num Ty decode encode F C nabs nadd nzero niszero types ev ->
+       (forall (a : list (sol Val Num)) (s : sol Val Num), incl (arch_add a s) (s :: a)) ->
+       forall dom_enc dom_dec : Ty -> Val -> Prop,
+       (forall (t : Ty) (v : Val), In t types -> dom_enc t v -> dom_dec t (decode t v)) ->
+       (forall (t : Ty) (v : Val), In t types -> dom_dec t v -> dom_enc t (encode t v)) ->
+       (forall (t : T) (ps : list (sol Val Num)) (c : sol Val Num),
+        Forall (EncOK Val Num Ty types dom_enc) ps -> In c (vary t ps) -> EncOK Val Num Ty types dom_enc c) ->
+       (forall (t : T) (p : sol Val Num),
+        EncOK Val Num Ty types dom_enc p -> EncOK Val Num Ty types dom_enc (mutate t p)) ->
+       (forall (t : T) (p : sol Val Num),
+        EncOK Val Num Ty types dom_enc p -> EncOK Val Num Ty types dom_enc (move t p)) ->
+       (forall t : T, EncOK Val Num Ty types dom_enc (sample t)) ->
+       (forall s : sol Val Num, Gen s -> EncOK Val Num Ty types dom_enc s) ->
+       forall (injected : list (sol Val Num)) (arch0 : option (list (sol Val Num))) (gen : list (sol Val Num)),
+       generated Val Num Gen injected gen ->
+       incl (oarch Val Num arch0) injected ->
+       Forall (EncOK Val Num Ty types dom_enc) injected ->
+       Forall (fun b : batch Val Num => Forall (EncOK Val Num Ty types dom_enc) (b_before b))
+         (snd (nsga2_initialize Val Num ev arch_add arch0 gen)) /\
+       Forall (InDomain Val Ty types dom_dec)
+         (flat_map (calls_of Val Num Ty decode types) (snd (nsga2_initialize Val Num ev arch_add arch0 gen))) /\
+       Forall (EncOK Val Num Ty types dom_enc)
+         (pa_exposed Val Num (fst (nsga2_initialize Val Num ev arch_add arch0 gen))).
+Proof. exact nsga2_initialize_step_in_domain. Qed.
+
+(* NSGAII.iterate (with or without archive) *)
+Theorem c07_nsga2_step_in_domain :
+    forall (Val Num Ty : Type) (decode encode : Ty -> Val -> Val) (F : list Val -> list Num * list Num)
+         (C : list (Num -> Num)) (nabs : Num -> Num) (nadd : Num -> Num -> Num) (nzero : Num) 
+         (niszero : Num -> bool) (types : list Ty) (ev : list (sol Val Num) -> list (jobres Val Num)) 
+         (T : Type) (vary : T -> list (sol Val Num) -> list (sol Val Num))
+         (mutate move : T -> sol Val Num -> sol Val Num) (sample : T -> sol Val Num) (Gen : sol Val Num -> Prop)
+         (survive : list (sol Val Num) -> list (sol Val Num))
+         (arch_add : list (sol Val Num) -> sol Val Num -> list (sol Val Num)),
+       ev_spec Val Num Ty decode encode F C nabs nadd nzero niszero types ev ->
+       (forall l : list (sol Val Num), incl (survive l) l) ->
+       (forall (a : list (sol Val Num)) (s : sol Val Num), incl (arch_add a s) (s :: a)) ->
+       forall dom_enc dom_dec : Ty -> Val -> Prop,
+       (forall (t : Ty) (v : Val), In t types -> dom_enc t v -> dom_dec t (decode t v)) ->
+       (forall (t : Ty) (v : Val), In t types -> dom_dec t v -> dom_enc t (encode t v)) ->
+       (forall (t : T) (ps : list (sol Val Num)) (c : sol Val Num),
+        Forall (EncOK Val Num Ty types dom_enc) ps -> In c (vary t ps) -> EncOK Val Num Ty types dom_enc c) ->
+       (forall (t : T) (p : sol Val Num),
+        EncOK Val Num Ty types dom_enc p -> EncOK Val Num Ty types dom_enc (mutate t p)) ->
+       (forall (t : T) (p : sol Val Num),
+        EncOK Val Num Ty types dom_enc p -> EncOK Val Num Ty types dom_enc (move t p)) ->
+       (forall t : T, EncOK Val Num Ty types dom_enc (sample t)) ->
+       (forall s : sol Val Num, Gen s -> EncOK Val Num Ty types dom_enc s) ->
+       forall (tape : list (list nat * T)) (st : pa_st Val Num),
+       Forall (EncOK Val Num Ty types dom_enc) (pa_exposed Val Num st) ->
+       Forall (fun b : batch Val Num => Forall (EncOK Val Num Ty types dom_enc) (b_before b))
+         (snd (nsga2_iterate Val Num ev T vary survive arch_add tape st)) /\
+       Forall (InDomain Val Ty types dom_dec)
+         (flat_map (calls_of Val Num Ty decode types)
+            (snd (nsga2_iterate Val Num ev T vary survive arch_add tape st))) /\
+       Forall (EncOK Val Num Ty types dom_enc)
+         (pa_exposed Val Num (fst (nsga2_iterate Val Num ev T vary survive arch_add tape st))).
+Proof. exact nsga2_step_in_domain. Qed.
+
+(* NSGAIII.iterate *)
+Theorem c07_nsga3_step_in_domain :
+    forall (Val Num Ty : Type) (decode encode : Ty -> Val -> Val) (F : list Val -> list Num * list Num)
+         (C : list (Num -> Num)) (nabs : Num -> Num) (nadd : Num -> Num -> Num) (nzero : Num) 
+         (niszero : Num -> bool) (types : list Ty) (ev : list (sol Val Num) -> list (jobres Val Num)) 
+         (T : Type) (vary : T -> list (sol Val Num) -> list (sol Val Num))
+         (mutate move : T -> sol Val Num -> sol Val Num) (sample : T -> sol Val Num) (Gen : sol Val Num -> Prop)
+         (survive : list (sol Val Num) -> list (sol Val Num)),
+       ev_spec Val Num Ty decode encode F C nabs nadd nzero niszero types ev ->
+       (forall l : list (sol Val Num), incl (survive l) l) ->
+       forall dom_enc dom_dec : Ty -> Val -> Prop,
+       (forall (t : Ty) (v : Val), In t types -> dom_enc t v -> dom_dec t (decode t v)) ->
+       (forall (t : Ty) (v : Val), In t types -> dom_dec t v -> dom_enc t (encode t v)) ->
+       (forall (t : T) (ps : list (sol Val Num)) (c : sol Val Num),
+        Forall (EncOK Val Num Ty types dom_enc) ps -> In c (vary t ps) -> EncOK Val Num Ty types dom_enc c) ->
+       (forall (t : T) (p : sol Val Num),
+        EncOK Val Num Ty types dom_enc p -> EncOK Val Num Ty types dom_enc (mutate t p)) ->
+       (forall (t : T) (p : sol Val Num),
+        EncOK Val Num Ty types dom_enc p -> EncOK Val Num Ty types dom_enc (move t p)) ->
+       (forall t : T, EncOK Val Num Ty types dom_enc (sample t)) ->
+       (forall s : sol Val Num, Gen s -> EncOK Val Num Ty types dom_enc s) ->
+       forall (tape : list (list nat * T)) (pop : list (sol Val Num)),
+       Forall (EncOK Val Num Ty types dom_enc) pop ->
+       Forall (fun b : batch Val Num => Forall (EncOK Val Num Ty types dom_enc) (b_before b))
+         (snd (plus_iterate Val Num ev T vary survive tape pop)) /\
+       Forall (InDomain Val Ty types dom_dec)
+         (flat_map (calls_of Val Num Ty decode types) (snd (plus_iterate Val Num ev T vary survive tape pop))) /\
+       Forall (EncOK Val Num Ty types dom_enc) (fst (plus_iterate Val Num ev T vary survive tape pop)).
+Proof. exact nsga3_step_in_domain. Qed.
+
+(* SPEA2.iterate *)
+Theorem c07_spea2_step_in_domain :
+    forall (Val Num Ty : Type) (decode encode : Ty -> Val -> Val) (F : list Val -> list Num * list Num)
+         (C : list (Num -> Num)) (nabs : Num -> Num) (nadd : Num -> Num -> Num) (nzero : Num) 
+         (niszero : Num -> bool) (types : list Ty) (ev : list (sol Val Num) -> list (jobres Val Num)) 
+         (T : Type) (vary : T -> list (sol Val Num) -> list (sol Val Num))
+         (mutate move : T -> sol Val Num -> sol Val Num) (sample : T -> sol Val Num) (Gen : sol Val Num -> Prop)
+         (survive : list (sol Val Num) -> list (sol Val Num)),
+       ev_spec Val Num Ty decode encode F C nabs nadd nzero niszero types ev ->
+       (forall l : list (sol Val Num), incl (survive l) l) ->
+       forall dom_enc dom_dec : Ty -> Val -> Prop,
+       (forall (t : Ty) (v : Val), In t types -> dom_enc t v -> dom_dec t (decode t v)) ->
+       (forall (t : Ty) (v : Val), In t types -> dom_dec t v -> dom_enc t (encode t v)) ->
+       (forall (t : T) (ps : list (sol Val Num)) (c : sol Val Num),
+        Forall (EncOK Val Num Ty types dom_enc) ps -> In c (vary t ps) -> EncOK Val Num Ty types dom_enc c) ->
+       (forall (t : T) (p : sol Val Num),
+        EncOK Val Num Ty types dom_enc p -> EncOK Val Num Ty types dom_enc (mutate t p)) ->
+       (forall (t : T) (p : sol Val Num),
+        EncOK Val Num Ty types dom_enc p -> EncOK Val Num Ty types dom_enc (move t p)) ->
+       (forall t : T, EncOK Val Num Ty types dom_enc (sample t)) ->
+       (forall s : sol Val Num, Gen s -> EncOK Val Num Ty types dom_enc s) ->
+       forall (tape : list (list nat * T)) (pop : list (sol Val Num)),
+       Forall (EncOK Val Num Ty types dom_enc) pop ->
+       Forall (fun b : batch Val Num => Forall (EncOK Val Num Ty types dom_enc) (b_before b))
+         (snd (plus_iterate Val Num ev T vary survive tape pop)) /\
+       Forall (InDomain Val Ty types dom_dec)
+         (flat_map (calls_of Val Num Ty decode types) (snd (plus_iterate Val Num ev T vary survive tape pop))) /\
+       Forall (EncOK Val Num Ty types dom_enc) (fst (plus_iterate Val Num ev T vary survive tape pop)).
+Proof. exact spea2_step_in_domain. Qed.
+
+(* EpsNSGAII: NSGAII.iterate followed, in the same step, by an optional restart *)
+Theorem c07_epsnsga2_step_in_domain :
+    forall (Val Num Ty : Type) (decode encode : Ty -> Val -> Val) (F : list Val -> list Num * list Num)
+         (C : list (Num -> Num)) (nabs : Num -> Num) (nadd : Num -> Num -> Num) (nzero : Num) 
+         (niszero : Num -> bool) (types : list Ty) (ev : list (sol Val Num) -> list (jobres Val Num)) 
+         (T : Type) (vary : T -> list (sol Val Num) -> list (sol Val Num))
+         (mutate move : T -> sol Val Num -> sol Val Num) (sample : T -> sol Val Num) (Gen : sol Val Num -> Prop)
+         (survive : list (sol Val Num) -> list (sol Val Num))
+         (arch_add : list (sol Val Num) -> sol Val Num -> list (sol Val Num)),
+       ev_spec Val Num Ty decode encode F C nabs nadd nzero niszero types ev ->
+       (forall l : list (sol Val Num), incl (survive l) l) ->
+       (forall (a : list (sol Val Num)) (s : sol Val Num), incl (arch_add a s) (s :: a)) ->
+       forall dom_enc dom_dec : Ty -> Val -> Prop,
+       (forall (t : Ty) (v : Val), In t types -> dom_enc t v -> dom_dec t (decode t v)) ->
+       (forall (t : Ty) (v : Val), In t types -> dom_dec t v -> dom_enc t (encode t v)) ->
+       (forall (t : T) (ps : list (sol Val Num)) (c : sol Val Num),
+        Forall (EncOK Val Num Ty types dom_enc) ps -> In c (vary t ps) -> EncOK Val Num Ty types dom_enc c) ->
+       (forall (t : T) (p : sol Val Num),
+        EncOK Val Num Ty types dom_enc p -> EncOK Val Num Ty types dom_enc (mutate t p)) ->
+       (forall (t : T) (p : sol Val Num),
+        EncOK Val Num Ty types dom_enc p -> EncOK Val Num Ty types dom_enc (move t p)) ->
+       (forall t : T, EncOK Val Num Ty types dom_enc (sample t)) ->
+       (forall s : sol Val Num, Gen s -> EncOK Val Num Ty types dom_enc s) ->
+       forall (tape : list (list nat * T)) (rt : option (list (list nat * T))) (st : pa_st Val Num),
+       Forall (EncOK Val Num Ty types dom_enc) (pa_exposed Val Num st) ->
+       Forall (fun b : batch Val Num => Forall (EncOK Val Num Ty types dom_enc) (b_before b))
+         (snd (epsnsga2_step Val Num ev T vary survive arch_add tape rt st)) /\
+       Forall (InDomain Val Ty types dom_dec)
+         (flat_map (calls_of Val Num Ty decode types)
+            (snd (epsnsga2_step Val Num ev T vary survive arch_add tape rt st))) /\
+       Forall (EncOK Val Num Ty types dom_enc)
+         (pa_exposed Val Num (fst (epsnsga2_step Val Num ev T vary survive arch_add tape rt st))).
+Proof. exact epsnsga2_step_in_domain. Qed.
+
+(* AdaptiveTimeContinuationExtension.restart *)
+Theorem c07_restart_step_in_domain :
+    forall (Val Num Ty : Type) (decode encode : Ty -> Val -> Val) (F : list Val -> list Num * list Num)
+         (C : list (Num -> Num)) (nabs : Num -> Num) (nadd : Num -> Num -> Num) (nzero : Num) 
+         (niszero : Num -> bool) (types : list Ty) (ev : list (sol Val Num) -> list (jobres Val Num)) 
+         (T : Type) (vary : T -> list (sol Val Num) -> list (sol Val Num))
+         (mutate move : T -> sol Val Num -> sol Val Num) (sample : T -> sol Val Num) (Gen : sol Val Num -> Prop)
+         (arch_add : list (sol Val Num) -> sol Val Num -> list (sol Val Num)),
+       ev_spec Val Num Ty decode encode F C nabs nadd nzero niszero types ev ->
+       (forall (a : list (sol Val Num)) (s : sol Val Num), incl (arch_add a s) (s :: a)) ->
+       forall dom_enc dom_dec : Ty -> Val -> Prop,
+       (forall (t : Ty) (v : Val), In t types -> dom_enc t v -> dom_dec t (decode t v)) ->
+       (forall (t : Ty) (v : Val), In t types -> dom_dec t v -> dom_enc t (encode t v)) ->
+       (forall (t : T) (ps : list (sol Val Num)) (c : sol Val Num),
+        Forall (EncOK Val Num Ty types dom_enc) ps -> In c (vary t ps) -> EncOK Val Num Ty types dom_enc c) ->
+       (forall (t : T) (p : sol Val Num),
+        EncOK Val Num Ty types dom_enc p -> EncOK Val Num Ty types dom_enc (mutate t p)) ->
+       (forall (t : T) (p : sol Val Num),
+        EncOK Val Num Ty types dom_enc p -> EncOK Val Num Ty types dom_enc (move t p)) ->
+       (forall t : T, EncOK Val Num Ty types dom_enc (sample t)) ->
+       (forall s : sol Val Num, Gen s -> EncOK Val Num Ty types dom_enc s) ->
+       forall (rt : list (list nat * T)) (st : pa_st Val Num),
+       Forall (EncOK Val Num Ty types dom_enc) (pa_exposed Val Num st) ->
+       Forall (fun b : batch Val Num => Forall (EncOK Val Num Ty types dom_enc) (b_before b))
+         (snd (restart Val Num ev T vary arch_add rt st)) /\
+       Forall (InDomain Val Ty types dom_dec)
+         (flat_map (calls_of Val Num Ty decode types) (snd (restart Val Num ev T vary arch_add rt st))) /\
+       Forall (EncOK Val Num Ty types dom_enc) (pa_exposed Val Num (fst (restart Val Num ev T vary arch_add rt st))).
+Proof. exact restart_step_in_domain. Qed.
+
+(* EpsMOEA.iterate (steady state) *)
+Theorem c07_epsmoea_step_in_domain :
+    forall (Val Num Ty : Type) (decode encode : Ty -> Val -> Val) (F : list Val -> list Num * list Num)
+         (C : list (Num -> Num)) (nabs : Num -> Num) (nadd : Num -> Num -> Num) (nzero : Num) 
+         (niszero : Num -> bool) (types : list Ty) (ev : list (sol Val Num) -> list (jobres Val Num)) 
+         (T : Type) (vary : T -> list (sol Val Num) -> list (sol Val Num))
+         (mutate move : T -> sol Val Num -> sol Val Num) (sample : T -> sol Val Num) (Gen : sol Val Num -> Prop)
+         (cmp : sol Val Num -> sol Val Num -> Z) (arch_add : list (sol Val Num) -> sol Val Num -> list (sol Val Num)),
+       ev_spec Val Num Ty decode encode F C nabs nadd nzero niszero types ev ->
+       (forall (a : list (sol Val Num)) (s : sol Val Num), incl (arch_add a s) (s :: a)) ->
+       forall dom_enc dom_dec : Ty -> Val -> Prop,
+       (forall (t : Ty) (v : Val), In t types -> dom_enc t v -> dom_dec t (decode t v)) ->
+       (forall (t : Ty) (v : Val), In t types -> dom_dec t v -> dom_enc t (encode t v)) ->
+       (forall (t : T) (ps : list (sol Val Num)) (c : sol Val Num),
+        Forall (EncOK Val Num Ty types dom_enc) ps -> In c (vary t ps) -> EncOK Val Num Ty types dom_enc c) ->
+       (forall (t : T) (p : sol Val Num),
+        EncOK Val Num Ty types dom_enc p -> EncOK Val Num Ty types dom_enc (mutate t p)) ->
+       (forall (t : T) (p : sol Val Num),
+        EncOK Val Num Ty types dom_enc p -> EncOK Val Num Ty types dom_enc (move t p)) ->
+       (forall t : T, EncOK Val Num Ty types dom_enc (sample t)) ->
+       (forall s : sol Val Num, Gen s -> EncOK Val Num Ty types dom_enc s) ->
+       forall (tp : eps_tape T) (st : pa_st Val Num),
+       Forall (EncOK Val Num Ty types dom_enc) (pa_exposed Val Num st) ->
+       Forall (fun b : batch Val Num => Forall (EncOK Val Num Ty types dom_enc) (b_before b))
+         (snd (epsmoea_iterate Val Num ev T vary cmp arch_add tp st)) /\
+       Forall (InDomain Val Ty types dom_dec)
+         (flat_map (calls_of Val Num Ty decode types) (snd (epsmoea_iterate Val Num ev T vary cmp arch_add tp st))) /\
+       Forall (EncOK Val Num Ty types dom_enc)
+         (pa_exposed Val Num (fst (epsmoea_iterate Val Num ev T vary cmp arch_add tp st))).
+Proof. exact epsmoea_step_in_domain. Qed.
+
+(* GDE3.iterate *)
+Theorem c07_gde3_step_in_domain :
+    forall (Val Num Ty : Type) (decode encode : Ty -> Val -> Val) (F : list Val -> list Num * list Num)
+         (C : list (Num -> Num)) (nabs : Num -> Num) (nadd : Num -> Num -> Num) (nzero : Num) 
+         (niszero : Num -> bool) (types : list Ty) (ev : list (sol Val Num) -> list (jobres Val Num)) 
+         (T : Type) (vary : T -> list (sol Val Num) -> list (sol Val Num))
+         (mutate move : T -> sol Val Num -> sol Val Num) (sample : T -> sol Val Num) (Gen : sol Val Num -> Prop)
+         (cmp : sol Val Num -> sol Val Num -> Z) (survive : list (sol Val Num) -> list (sol Val Num)),
+       ev_spec Val Num Ty decode encode F C nabs nadd nzero niszero types ev ->
+       (forall l : list (sol Val Num), incl (survive l) l) ->
+       forall dom_enc dom_dec : Ty -> Val -> Prop,
+       (forall (t : Ty) (v : Val), In t types -> dom_enc t v -> dom_dec t (decode t v)) ->
+       (forall (t : Ty) (v : Val), In t types -> dom_dec t v -> dom_enc t (encode t v)) ->
+       (forall (t : T) (ps : list (sol Val Num)) (c : sol Val Num),
+        Forall (EncOK Val Num Ty types dom_enc) ps -> In c (vary t ps) -> EncOK Val Num Ty types dom_enc c) ->
+       (forall (t : T) (p : sol Val Num),
+        EncOK Val Num Ty types dom_enc p -> EncOK Val Num Ty types dom_enc (mutate t p)) ->
+       (forall (t : T) (p : sol Val Num),
+        EncOK Val Num Ty types dom_enc p -> EncOK Val Num Ty types dom_enc (move t p)) ->
+       (forall t : T, EncOK Val Num Ty types dom_enc (sample t)) ->
+       (forall s : sol Val Num, Gen s -> EncOK Val Num Ty types dom_enc s) ->
+       forall (tape : list (list nat * T)) (pop : list (sol Val Num)),
+       Forall (EncOK Val Num Ty types dom_enc) pop ->
+       Forall (fun b : batch Val Num => Forall (EncOK Val Num Ty types dom_enc) (b_before b))
+         (snd (gde3_iterate Val Num ev T vary cmp survive tape pop)) /\
+       Forall (InDomain Val Ty types dom_dec)
+         (flat_map (calls_of Val Num Ty decode types) (snd (gde3_iterate Val Num ev T vary cmp survive tape pop))) /\
+       Forall (EncOK Val Num Ty types dom_enc) (fst (gde3_iterate Val Num ev T vary cmp survive tape pop)).
+Proof. exact gde3_step_in_domain. Qed.
+
+(* IBEA.iterate (removal loop) *)
+Theorem c07_ibea_step_in_domain :
+    forall (Val Num Ty : Type) (decode encode : Ty -> Val -> Val) (F : list Val -> list Num * list Num)
+         (C : list (Num -> Num)) (nabs : Num -> Num) (nadd : Num -> Num -> Num) (nzero : Num) 
+         (niszero : Num -> bool) (types : list Ty) (ev : list (sol Val Num) -> list (jobres Val Num)) 
+         (T : Type) (vary : T -> list (sol Val Num) -> list (sol Val Num))
+         (mutate move : T -> sol Val Num -> sol Val Num) (sample : T -> sol Val Num) (Gen : sol Val Num -> Prop)
+         (worst : list (sol Val Num) -> nat),
+       ev_spec Val Num Ty decode encode F C nabs nadd nzero niszero types ev ->
+       forall dom_enc dom_dec : Ty -> Val -> Prop,
+       (forall (t : Ty) (v : Val), In t types -> dom_enc t v -> dom_dec t (decode t v)) ->
+       (forall (t : Ty) (v : Val), In t types -> dom_dec t v -> dom_enc t (encode t v)) ->
+       (forall (t : T) (ps : list (sol Val Num)) (c : sol Val Num),
+        Forall (EncOK Val Num Ty types dom_enc) ps -> In c (vary t ps) -> EncOK Val Num Ty types dom_enc c) ->
+       (forall (t : T) (p : sol Val Num),
+        EncOK Val Num Ty types dom_enc p -> EncOK Val Num Ty types dom_enc (mutate t p)) ->
+       (forall (t : T) (p : sol Val Num),
+        EncOK Val Num Ty types dom_enc p -> EncOK Val Num Ty types dom_enc (move t p)) ->
+       (forall t : T, EncOK Val Num Ty types dom_enc (sample t)) ->
+       (forall s : sol Val Num, Gen s -> EncOK Val Num Ty types dom_enc s) ->
+       forall (size : nat) (tape : list (list nat * T)) (pop : list (sol Val Num)),
+       Forall (EncOK Val Num Ty types dom_enc) pop ->
+       Forall (fun b : batch Val Num => Forall (EncOK Val Num Ty types dom_enc) (b_before b))
+         (snd (ibea_iterate Val Num ev T vary worst size tape pop)) /\
+       Forall (InDomain Val Ty types dom_dec)
+         (flat_map (calls_of Val Num Ty decode types) (snd (ibea_iterate Val Num ev T vary worst size tape pop))) /\
+       Forall (EncOK Val Num Ty types dom_enc) (fst (ibea_iterate Val Num ev T vary worst size tape pop)).
+Proof. exact ibea_step_in_domain. Qed.
+
+(* PAES.iterate *)
+Theorem c07_paes_step_in_domain :
+    forall (Val Num Ty : Type) (decode encode : Ty -> Val -> Val) (F : list Val -> list Num * list Num)
+         (C : list (Num -> Num)) (nabs : Num -> Num) (nadd : Num -> Num -> Num) (nzero : Num) 
+         (niszero : Num -> bool) (types : list Ty) (ev : list (sol Val Num) -> list (jobres Val Num)) 
+         (T : Type) (vary : T -> list (sol Val Num) -> list (sol Val Num))
+         (mutate move : T -> sol Val Num -> sol Val Num) (sample : T -> sol Val Num) (Gen : sol Val Num -> Prop)
+         (cmp : sol Val Num -> sol Val Num -> Z) (test : list (sol Val Num) -> sol Val Num -> sol Val Num -> bool)
+         (arch_add : list (sol Val Num) -> sol Val Num -> list (sol Val Num))
+         (arch_added : list (sol Val Num) -> sol Val Num -> bool),
+       ev_spec Val Num Ty decode encode F C nabs nadd nzero niszero types ev ->
+       (forall (a : list (sol Val Num)) (s : sol Val Num), incl (arch_add a s) (s :: a)) ->
+       forall dom_enc dom_dec : Ty -> Val -> Prop,
+       (forall (t : Ty) (v : Val), In t types -> dom_enc t v -> dom_dec t (decode t v)) ->
+       (forall (t : Ty) (v : Val), In t types -> dom_dec t v -> dom_enc t (encode t v)) ->
+       (forall (t : T) (ps : list (sol Val Num)) (c : sol Val Num),
+        Forall (EncOK Val Num Ty types dom_enc) ps -> In c (vary t ps) -> EncOK Val Num Ty types dom_enc c) ->
+       (forall (t : T) (p : sol Val Num),
+        EncOK Val Num Ty types dom_enc p -> EncOK Val Num Ty types dom_enc (mutate t p)) ->
+       (forall (t : T) (p : sol Val Num),
+        EncOK Val Num Ty types dom_enc p -> EncOK Val Num Ty types dom_enc (move t p)) ->
+       (forall t : T, EncOK Val Num Ty types dom_enc (sample t)) ->
+       (forall s : sol Val Num, Gen s -> EncOK Val Num Ty types dom_enc s) ->
+       forall (t : T) (st : pa_st Val Num),
+       Forall (EncOK Val Num Ty types dom_enc) (pa_exposed Val Num st) ->
+       Forall (fun b : batch Val Num => Forall (EncOK Val Num Ty types dom_enc) (b_before b))
+         (snd (paes_iterate Val Num ev T vary cmp test arch_add arch_added t st)) /\
+       Forall (InDomain Val Ty types dom_dec)
+         (flat_map (calls_of Val Num Ty decode types)
+            (snd (paes_iterate Val Num ev T vary cmp test arch_add arch_added t st))) /\
+       Forall (EncOK Val Num Ty types dom_enc)
+         (pa_exposed Val Num (fst (paes_iterate Val Num ev T vary cmp test arch_add arch_added t st))).
+Proof. exact paes_step_in_domain. Qed.
+
+(* PESA2.iterate *)
+Theorem c07_pesa2_step_in_domain :
+    forall (Val Num Ty : Type) (decode encode : Ty -> Val -> Val) (F : list Val -> list Num * list Num)
+         (C : list (Num -> Num)) (nabs : Num -> Num) (nadd : Num -> Num -> Num) (nzero : Num) 
+         (niszero : Num -> bool) (types : list Ty) (ev : list (sol Val Num) -> list (jobres Val Num)) 
+         (T : Type) (vary : T -> list (sol Val Num) -> list (sol Val Num))
+         (mutate move : T -> sol Val Num -> sol Val Num) (sample : T -> sol Val Num) (Gen : sol Val Num -> Prop)
+         (arch_add : list (sol Val Num) -> sol Val Num -> list (sol Val Num)),
+       ev_spec Val Num Ty decode encode F C nabs nadd nzero niszero types ev ->
+       (forall (a : list (sol Val Num)) (s : sol Val Num), incl (arch_add a s) (s :: a)) ->
+       forall dom_enc dom_dec : Ty -> Val -> Prop,
+       (forall (t : Ty) (v : Val), In t types -> dom_enc t v -> dom_dec t (decode t v)) ->
+       (forall (t : Ty) (v : Val), In t types -> dom_dec t v -> dom_enc t (encode t v)) ->
+       (forall (t : T) (ps : list (sol Val Num)) (c : sol Val Num),
+        Forall (EncOK Val Num Ty types dom_enc) ps -> In c (vary t ps) -> EncOK Val Num Ty types dom_enc c) ->
+       (forall (t : T) (p : sol Val Num),
+        EncOK Val Num Ty types dom_enc p -> EncOK Val Num Ty types dom_enc (mutate t p)) ->
+       (forall (t : T) (p : sol Val Num),
+        EncOK Val Num Ty types dom_enc p -> EncOK Val Num Ty types dom_enc (move t p)) ->
+       (forall t : T, EncOK Val Num Ty types dom_enc (sample t)) ->
+       (forall s : sol Val Num, Gen s -> EncOK Val Num Ty types dom_enc s) ->
+       forall (tape : list (list nat * T)) (st : pa_st Val Num),
+       Forall (EncOK Val Num Ty types dom_enc) (pa_exposed Val Num st) ->
+       Forall (fun b : batch Val Num => Forall (EncOK Val Num Ty types dom_enc) (b_before b))
+         (snd (pesa2_iterate Val Num ev T vary arch_add tape st)) /\
+       Forall (InDomain Val Ty types dom_dec)
+         (flat_map (calls_of Val Num Ty decode types) (snd (pesa2_iterate Val Num ev T vary arch_add tape st))) /\
+       Forall (EncOK Val Num Ty types dom_enc)
+         (pa_exposed Val Num (fst (pesa2_iterate Val Num ev T vary arch_add tape st))).
+Proof. exact pesa2_step_in_domain. Qed.
+
+(* ParticleSwarm.initialize (OMOPSO: with archive) *)
+Theorem c07_pso_initialize_step_in_domain :
+    forall (Val Num Ty : Type) (decode encode : Ty -> Val -> Val) (F : list Val -> list Num * list Num)
+         (C : list (Num -> Num)) (nabs : Num -> Num) (nadd : Num -> Num -> Num) (nzero : Num) 
+         (niszero : Num -> bool) (types : list Ty) (ev : list (sol Val Num) -> list (jobres Val Num)) 
+         (T : Type) (vary : T -> list (sol Val Num) -> list (sol Val Num))
+         (mutate move : T -> sol Val Num -> sol Val Num) (sample : T -> sol Val Num) (Gen : sol Val Num -> Prop)
+         (trunc : list (sol Val Num) -> list (sol Val Num))
+         (arch_add lead_add : list (sol Val Num) -> sol Val Num -> list (sol Val Num)),
+       ev_spec Val Num Ty decode encode F C nabs nadd nzero niszero types ev ->
+       (forall l : list (sol Val Num), incl (trunc l) l) ->
+       (forall (a : list (sol Val Num)) (s : sol Val Num), incl (arch_add a s) (s :: a)) ->
+       (forall (a : list (sol Val Num)) (s : sol Val Num), incl (lead_add a s) (s :: a)) ->
+       forall dom_enc dom_dec : Ty -> Val -> Prop,
+       (forall (t : Ty) (v : Val), In t types -> dom_enc t v -> dom_dec t (decode t v)) ->
+       (forall (t : Ty) (v : Val), In t types -> dom_dec t v -> dom_enc t (encode t v)) ->
+       (forall (t : T) (ps : list (sol Val Num)) (c : sol Val Num),
+        Forall (EncOK Val Num Ty types dom_enc) ps -> In c (vary t ps) -> EncOK Val Num Ty types dom_enc c) ->
+       (forall (t : T) (p : sol Val Num),
+        EncOK Val Num Ty types dom_enc p -> EncOK Val Num Ty types dom_enc (mutate t p)) ->
+       (forall (t : T) (p : sol Val Num),
+        EncOK Val Num Ty types dom_enc p -> EncOK Val Num Ty types dom_enc (move t p)) ->
+       (forall t : T, EncOK Val Num Ty types dom_enc (sample t)) ->
+       (forall s : sol Val Num, Gen s -> EncOK Val Num Ty types dom_enc s) ->
+       forall (injected : list (sol Val Num)) (arch0 : option (list (sol Val Num))) (gen : list (sol Val Num)),
+       generated Val Num Gen injected gen ->
+       incl (oarch Val Num arch0) injected ->
+       Forall (EncOK Val Num Ty types dom_enc) injected ->
+       Forall (fun b : batch Val Num => Forall (EncOK Val Num Ty types dom_enc) (b_before b))
+         (snd (pso_initialize Val Num ev trunc arch_add lead_add arch0 gen)) /\
+       Forall (InDomain Val Ty types dom_dec)
+         (flat_map (calls_of Val Num Ty decode types)
+            (snd (pso_initialize Val Num ev trunc arch_add lead_add arch0 gen))) /\
+       Forall (EncOK Val Num Ty types dom_enc)
+         (pso_exposed Val Num (fst (pso_initialize Val Num ev trunc arch_add lead_add arch0 gen))).
+Proof. exact pso_initialize_step_in_domain. Qed.
+
+(* ParticleSwarm.iterate (OMOPSO with archive, SMPSO without) *)
+Theorem c07_pso_step_in_domain :
+    forall (Val Num Ty : Type) (decode encode : Ty -> Val -> Val) (F : list Val -> list Num * list Num)
+         (C : list (Num -> Num)) (nabs : Num -> Num) (nadd : Num -> Num -> Num) (nzero : Num) 
+         (niszero : Num -> bool) (types : list Ty) (ev : list (sol Val Num) -> list (jobres Val Num)) 
+         (T : Type) (vary : T -> list (sol Val Num) -> list (sol Val Num))
+         (mutate move : T -> sol Val Num -> sol Val Num) (sample : T -> sol Val Num) (Gen : sol Val Num -> Prop)
+         (cmp : sol Val Num -> sol Val Num -> Z) (trunc : list (sol Val Num) -> list (sol Val Num))
+         (arch_add lead_add : list (sol Val Num) -> sol Val Num -> list (sol Val Num)),
+       ev_spec Val Num Ty decode encode F C nabs nadd nzero niszero types ev ->
+       (forall l : list (sol Val Num), incl (trunc l) l) ->
+       (forall (a : list (sol Val Num)) (s : sol Val Num), incl (arch_add a s) (s :: a)) ->
+       (forall (a : list (sol Val Num)) (s : sol Val Num), incl (lead_add a s) (s :: a)) ->
+       forall dom_enc dom_dec : Ty -> Val -> Prop,
+       (forall (t : Ty) (v : Val), In t types -> dom_enc t v -> dom_dec t (decode t v)) ->
+       (forall (t : Ty) (v : Val), In t types -> dom_dec t v -> dom_enc t (encode t v)) ->
+       (forall (t : T) (ps : list (sol Val Num)) (c : sol Val Num),
+        Forall (EncOK Val Num Ty types dom_enc) ps -> In c (vary t ps) -> EncOK Val Num Ty types dom_enc c) ->
+       (forall (t : T) (p : sol Val Num),
+        EncOK Val Num Ty types dom_enc p -> EncOK Val Num Ty types dom_enc (mutate t p)) ->
+       (forall (t : T) (p : sol Val Num),
+        EncOK Val Num Ty types dom_enc p -> EncOK Val Num Ty types dom_enc (move t p)) ->
+       (forall t : T, EncOK Val Num Ty types dom_enc (sample t)) ->
+       (forall s : sol Val Num, Gen s -> EncOK Val Num Ty types dom_enc s) ->
+       forall (tape : list (T * option T)) (st : pso_st Val Num),
+       Forall (EncOK Val Num Ty types dom_enc) (pso_exposed Val Num st) ->
+       Forall (fun b : batch Val Num => Forall (EncOK Val Num Ty types dom_enc) (b_before b))
+         (snd (pso_iterate Val Num ev T mutate move cmp trunc arch_add lead_add tape st)) /\
+       Forall (InDomain Val Ty types dom_dec)
+         (flat_map (calls_of Val Num Ty decode types)
+            (snd (pso_iterate Val Num ev T mutate move cmp trunc arch_add lead_add tape st))) /\
+       Forall (EncOK Val Num Ty types dom_enc)
+         (pso_exposed Val Num (fst (pso_iterate Val Num ev T mutate move cmp trunc arch_add lead_add tape st))).
+Proof. exact pso_step_in_domain. Qed.
+
+(* CMAES.iterate (= step; initialize ends with iterate) *)
+Theorem c07_cmaes_step_in_domain :
+    forall (Val Num Ty : Type) (decode encode : Ty -> Val -> Val) (F : list Val -> list Num * list Num)
+         (C : list (Num -> Num)) (nabs : Num -> Num) (nadd : Num -> Num -> Num) (nzero : Num) 
+         (niszero : Num -> bool) (types : list Ty) (ev : list (sol Val Num) -> list (jobres Val Num)) 
+         (T : Type) (vary : T -> list (sol Val Num) -> list (sol Val Num))
+         (mutate move : T -> sol Val Num -> sol Val Num) (sample : T -> sol Val Num) (Gen : sol Val Num -> Prop)
+         (sortf : list (sol Val Num) -> list (sol Val Num))
+         (arch_add : list (sol Val Num) -> sol Val Num -> list (sol Val Num)),
+       ev_spec Val Num Ty decode encode F C nabs nadd nzero niszero types ev ->
+       (forall l : list (sol Val Num), incl (sortf l) l) ->
+       (forall (a : list (sol Val Num)) (s : sol Val Num), incl (arch_add a s) (s :: a)) ->
+       forall dom_enc dom_dec : Ty -> Val -> Prop,
+       (forall (t : Ty) (v : Val), In t types -> dom_enc t v -> dom_dec t (decode t v)) ->
+       (forall (t : Ty) (v : Val), In t types -> dom_dec t v -> dom_enc t (encode t v)) ->
+       (forall (t : T) (ps : list (sol Val Num)) (c : sol Val Num),
+        Forall (EncOK Val Num Ty types dom_enc) ps -> In c (vary t ps) -> EncOK Val Num Ty types dom_enc c) ->
+       (forall (t : T) (p : sol Val Num),
+        EncOK Val Num Ty types dom_enc p -> EncOK Val Num Ty types dom_enc (mutate t p)) ->
+       (forall (t : T) (p : sol Val Num),
+        EncOK Val Num Ty types dom_enc p -> EncOK Val Num Ty types dom_enc (move t p)) ->
+       (forall t : T, EncOK Val Num Ty types dom_enc (sample t)) ->
+       (forall s : sol Val Num, Gen s -> EncOK Val Num Ty types dom_enc s) ->
+       forall (ts : list T) (st : pa_st Val Num),
+       Forall (EncOK Val Num Ty types dom_enc) (pa_exposed Val Num st) ->
+       Forall (fun b : batch Val Num => Forall (EncOK Val Num Ty types dom_enc) (b_before b))
+         (snd (cmaes_iterate Val Num ev T sample sortf arch_add ts st)) /\
+       Forall (InDomain Val Ty types dom_dec)
+         (flat_map (calls_of Val Num Ty decode types) (snd (cmaes_iterate Val Num ev T sample sortf arch_add ts st))) /\
+       Forall (EncOK Val Num Ty types dom_enc)
+         (pa_exposed Val Num (fst (cmaes_iterate Val Num ev T sample sortf arch_add ts st))).
+Proof. exact cmaes_step_in_domain. Qed.
+
+(* MOEAD.iterate (one evaluate_all per subproblem, in-place replacement) *)
+Theorem c07_moead_step_in_domain :
+    forall (Val Num Ty : Type) (decode encode : Ty -> Val -> Val) (F : list Val -> list Num * list Num)
+         (C : list (Num -> Num)) (nabs : Num -> Num) (nadd : Num -> Num -> Num) (nzero : Num) 
+         (niszero : Num -> bool) (types : list Ty) (ev : list (sol Val Num) -> list (jobres Val Num)) 
+         (T : Type) (vary : T -> list (sol Val Num) -> list (sol Val Num))
+         (mutate move : T -> sol Val Num -> sol Val Num) (sample : T -> sol Val Num) (Gen : sol Val Num -> Prop)
+         (better : sol Val Num -> sol Val Num -> nat -> bool),
+       ev_spec Val Num Ty decode encode F C nabs nadd nzero niszero types ev ->
+       forall (arity eta : nat) (dom_enc dom_dec : Ty -> Val -> Prop),
+       (forall (t : Ty) (v : Val), In t types -> dom_enc t v -> dom_dec t (decode t v)) ->
+       (forall (t : Ty) (v : Val), In t types -> dom_dec t v -> dom_enc t (encode t v)) ->
+       (forall (t : T) (ps : list (sol Val Num)) (c : sol Val Num),
+        Forall (EncOK Val Num Ty types dom_enc) ps -> In c (vary t ps) -> EncOK Val Num Ty types dom_enc c) ->
+       (forall (t : T) (p : sol Val Num),
+        EncOK Val Num Ty types dom_enc p -> EncOK Val Num Ty types dom_enc (mutate t p)) ->
+       (forall (t : T) (p : sol Val Num),
+        EncOK Val Num Ty types dom_enc p -> EncOK Val Num Ty types dom_enc (move t p)) ->
+       (forall t : T, EncOK Val Num Ty types dom_enc (sample t)) ->
+       (forall s : sol Val Num, Gen s -> EncOK Val Num Ty types dom_enc s) ->
+       forall (items : list (moead_item T)) (pop : list (sol Val Num)),
+       Forall (EncOK Val Num Ty types dom_enc) pop ->
+       Forall (fun b : batch Val Num => Forall (EncOK Val Num Ty types dom_enc) (b_before b))
+         (snd (moead_iterate Val Num ev T vary better arity eta items pop)) /\
+       Forall (InDomain Val Ty types dom_dec)
+         (flat_map (calls_of Val Num Ty decode types)
+            (snd (moead_iterate Val Num ev T vary better arity eta items pop))) /\
+       Forall (EncOK Val Num Ty types dom_enc) (fst (moead_iterate Val Num ev T vary better arity eta items pop)).
+Proof. exact moead_step_in_domain. Qed.
+
